@@ -43,6 +43,11 @@ CORPUS = [
     (["10 GOSUB 100:GOSUB 100", "20 END", "100 FOR K=1 TO K*3:PRINT K;:NEXT:PRINT:RETURN"], []),
     (["10 I=3:FOR I=I TO I+4 STEP I-1:PRINT I;:NEXT:PRINT I"], []),
     (["10 I%=7:FOR I%=2 TO I%*2 STEP I%:PRINT I%;:NEXT"], []),
+    # an inner loop left early: the outer NEXT, by name or in a list, drops its frame and leaves its variable alone
+    (["10 FOR I=1 TO 2", "20 FOR J=1 TO 5", "30 IF J=3 THEN 50", "40 NEXT J", "50 PRINT I;J;", "60 NEXT I", "70 PRINT I;J"], []),
+    (["10 GOSUB 100:PRINT A;B;C:END", "100 FOR A=1 TO 2", "110 FOR B=10 TO 1 STEP -2", "120 FOR C=1 TO 9", "130 IF C=4 THEN 150", "140 NEXT C,B",
+      "150 NEXT A", "160 RETURN"], []),
+    (["10 FOR I%=1 TO 2:FOR J%=32766 TO 32767:IF J%=32767 THEN 30", "20 NEXT J%", "30 NEXT I%:PRINT I%;J%"], []),
     (["0 X=X+1:PRINT X;", "5 IF 0 THEN PRINT \"NEVER\"", "10 IF X<3 THEN 0", "20 PRINT \"DONE\""], []),
 ]
 
